@@ -478,6 +478,7 @@ type scenario struct {
 	amount    sdkmath.Int
 	strat     string // in | out
 	minOrOut  sdkmath.Int
+	exactFit  bool // exact-output: send exactly the quoted input
 	provider  bool
 	receiver  string // a1 | f0
 	change    legSpec
@@ -787,6 +788,19 @@ func (h *ibcH) runHistory(sc scenario) {
 		rout = "uccc"
 	case "pool":
 		pool = 77
+	}
+	// exact fit: the packet carries exactly the amount the exact-output swap needs, so that no remainder exists although the
+	// memo names a change destination (no change leg is created; the acknowledgement must still be written)
+	if sc.strat == "out" && sc.fail == "" && sc.memoRaw == "" && sc.exactFit {
+		route := swaptypes.Route{DenomIn: rin, DenomOut: rout, Strategy: &swaptypes.Route_Pool{Pool: &swaptypes.RoutePool{PoolId: pool}}}
+		func() {
+			defer func() { _ = recover() }()
+			ctx, _ := h.c.Ctx().CacheContext()
+			if res, _, err := h.c.App.SwapKeeper.CalculateResultExactAmountOut(ctx, sc.provider, route, sc.minOrOut); err == nil && res.TokenIn.Amount.IsPositive() {
+				sc.amount = res.TokenIn.Amount
+				e.Stat("scenario.exact_fit")
+			}
+		}()
 	}
 	memo := h.buildMemo(sc, rin, rout, pool)
 	feat := fmt.Sprintf("dir=%d strategy=%s has_change=%v has_forward=%v receiver=%s provider=%v fail=%s", sc.dir, sc.strat, sc.change.present && sc.strat == "out", sc.forward.present, sc.receiver, sc.provider, ibcOrDash(sc.fail))
@@ -1198,6 +1212,7 @@ func (h *ibcH) genScenario(k int) scenario {
 	if k%11 == 10 {
 		sc.memoRaw = malformedMemos[r.N(len(malformedMemos))]
 	}
+	sc.exactFit = sc.strat == "out" && r.N(3) == 0
 	return sc
 }
 
